@@ -239,8 +239,8 @@ def add_reads_ending_in_variants(rng, sc, per_variant=5, min_len=30):
     return sc
 
 
-def vcf_text(sc, phased=None, samples=None):
-    """Main VCF (unphased, GT alleles ascending).  phased: optional {sample: "PS"} to write the truth phasing (one set per contig)."""
+def vcf_text(sc, phased=None, samples=None, rev_rng=None, rev_frac=0.0):
+    """Main VCF (unphased, GT alleles ascending; with rev_rng a fraction rev_frac of the unphased genotypes is spelled in descending order, e.g. 1/0).  phased: optional {sample: "PS"} to write the truth phasing (one set per contig)."""
     samples = samples or sc["samples"]
     lines = ["##fileformat=VCFv4.2", '##FORMAT=<ID=GT,Number=1,Type=String,Description="Genotype">',
              '##FORMAT=<ID=PS,Number=1,Type=Integer,Description="Phase set identifier">']
@@ -258,7 +258,10 @@ def vcf_text(sc, phased=None, samples=None):
                         first_het[s] = v["pos"] + 1
                     calls.append("|".join(map(str, col)) + ":%d" % first_het[s])
                 else:
-                    calls.append("/".join(map(str, sorted(col))) + (":." if phased else ""))
+                    alleles = sorted(col)
+                    if rev_rng is not None and rev_rng.random() < rev_frac:
+                        alleles = alleles[::-1]
+                    calls.append("/".join(map(str, alleles)) + (":." if phased else ""))
             lines.append("\t".join([c["name"], str(v["pos"] + 1), ".", v["ref"], v["alt"], ".", "PASS", ".", "GT:PS" if phased else "GT"] + calls))
     return "\n".join(lines) + "\n"
 
